@@ -2385,6 +2385,14 @@ func ruleGUARD3(c *Ctx) []Ob {
 				}
 				n++
 				key := c.fname(fn) + "/the field of a new index is free of the separator"
+				// second obligation: the catalog's list was searched for the field before it is recorded
+				n++
+				key2 := c.fname(fn) + "/the field of a new index was looked for among the existing ones"
+				if why, ok := c.searchedBefore(fn, b, src); ok {
+					o.add(OK, key2, relPath(c, st.Pos()), "%s", why)
+				} else {
+					o.add(VIOLATED, key2, relPath(c, st.Pos()), "a path reaches the recording of the new index without the search of the catalog's list for the same field (%s): the index is recorded a second time - ListIndexes shows it twice, one DropIndex removes every entry but only one of the two records, HasIndex stays true and sorted queries through the emptied index return nothing", why)
+				}
 				if guardedBy(fn, b, c.validatedEdges(fn, src, freeEdges, 0)) {
 					o.add(OK, key, relPath(c, st.Pos()), "recorded only where the name was found free of ';'")
 				} else {
@@ -3401,6 +3409,42 @@ func ruleERR5(c *Ctx) []Ob {
 				if rv == f.ev || sameOrigin(rv, f.ev) {
 					continue
 				}
+				// the outcome of a second attempt, made only because the first call failed, in place of the
+				// failure: what the second attempt produces is another encoding / another answer, and the
+				// failure (a value the codec cannot represent, a refusal) is turned into a success
+				second := false
+				for _, og := range origins(rv) {
+					var k2 *ssa.Call
+					switch x := og.(type) {
+					case *ssa.Call:
+						k2 = x
+					case *ssa.Extract:
+						k2, _ = x.Tuple.(*ssa.Call)
+					}
+					if k2 == nil || !guardedBy(fn, k2.Block(), []edge{f.e}) {
+						continue
+					}
+					switch calleeFullName(k2) {
+					case "fmt.Errorf", "errors.New", "errors.Join":
+						continue
+					}
+					// the failure handed to the second call (wrapped, reported) is not dropped
+					uses := false
+					for _, a := range k2.Call.Args {
+						if a == f.ev || sameOrigin(a, f.ev) {
+							uses = true
+						}
+					}
+					if !uses {
+						second = true
+					}
+				}
+				if second {
+					k++
+					bad++
+					o.add(VIOLATED, fmt.Sprintf("%s/the failure of one call is not answered with the outcome of a second attempt #%d", c.fname(fn), k), relPath(c, ret.Pos()), "on the path where %s failed the function returns what another call, made only there, answered: the failure is dropped, and when the second attempt succeeds the caller gets a result the first call refused to produce (a time whose zone offset has no binary form stored as UTC: the document is written, the zone is lost)", describeValue(c, f.ev))
+					continue
+				}
 				// another error value: known to be nil here?
 				if guardedBy(fn, ret.Block(), nilEdges(fn, sameValue(rv))) {
 					k++
@@ -4097,4 +4141,144 @@ func (c *Ctx) nonNegAt(fn *ssa.Function, v ssa.Value, at *ssa.BasicBlock, extra 
 		return len(phi.Edges) > 0
 	}
 	return false
+}
+
+// ---------------------------------------------------------------- GUARD3, third obligation
+
+// fieldSearchLoops: the conditionals of fn, inside a loop, that compare the Field of an index
+// description with a value accepted by isField.
+func (c *Ctx) fieldSearchTests(fn *ssa.Function, isField func(ssa.Value) bool) []*ssa.If {
+	var out []*ssa.If
+	for _, b := range fn.Blocks {
+		if len(b.Instrs) == 0 || !c.inLoop(b) {
+			continue
+		}
+		iff, ok := b.Instrs[len(b.Instrs)-1].(*ssa.If)
+		if !ok {
+			continue
+		}
+		bo, ok := iff.Cond.(*ssa.BinOp)
+		if !ok || (bo.Op != token.EQL && bo.Op != token.NEQ) {
+			continue
+		}
+		for _, pair := range [][2]ssa.Value{{bo.X, bo.Y}, {bo.Y, bo.X}} {
+			_, f, nm := fieldLoad(pair[0])
+			if f == "Field" && nm != nil && c.libNamedIs(nm, "index", "Info") && isField(pair[1]) {
+				out = append(out, iff)
+			}
+		}
+	}
+	return out
+}
+
+// searchedBefore: every path to block at went through a search of the list of index descriptions
+// for src - a loop of fn that compares each description's Field with src and leaves on a match (or
+// records the outcome in a value tested afterwards), or a test of what a library helper holding
+// such a loop answered for src.
+func (c *Ctx) searchedBefore(fn *ssa.Function, at *ssa.BasicBlock, src ssa.Value) (string, bool) {
+	same := func(v ssa.Value) bool { return v == src || sameOrigin(v, src) }
+	var dependsOn func(v ssa.Value, isSrc func(ssa.Value) bool, depth int) bool
+	dependsOn = func(v ssa.Value, isSrc func(ssa.Value) bool, depth int) bool {
+		if v == nil || depth > 5 {
+			return false
+		}
+		if isSrc(v) {
+			return true
+		}
+		switch x := v.(type) {
+		case *ssa.BinOp:
+			return dependsOn(x.X, isSrc, depth+1) || dependsOn(x.Y, isSrc, depth+1)
+		case *ssa.UnOp:
+			return dependsOn(x.X, isSrc, depth+1)
+		case *ssa.Phi:
+			for _, e := range x.Edges {
+				if dependsOn(e, isSrc, depth+1) {
+					return true
+				}
+			}
+		case *ssa.Extract:
+			return dependsOn(x.Tuple, isSrc, depth+1)
+		}
+		return false
+	}
+	// an If outside every search loop, dominating at, whose condition depends on a value accepted by isOutcome
+	testedOutside := func(isOutcome func(ssa.Value) bool, body map[*ssa.BasicBlock]bool) bool {
+		for _, d := range fn.Blocks {
+			if body[d] || len(d.Instrs) == 0 || !(d == at || d.Dominates(at)) {
+				continue
+			}
+			if iff, ok := d.Instrs[len(d.Instrs)-1].(*ssa.If); ok && d != at && dependsOn(iff.Cond, isOutcome, 0) {
+				return true
+			}
+		}
+		return false
+	}
+	tests := c.fieldSearchTests(fn, same)
+	why := "no search of the list for the field in " + c.fname(fn)
+	for _, iff := range tests {
+		header, body := c.innermostLoop(iff.Block())
+		if header == nil || body[at] || !header.Dominates(at) {
+			why = "the search loop does not lie on every path to the recording"
+			continue
+		}
+		bo := iff.Cond.(*ssa.BinOp)
+		match := iff.Block().Succs[0]
+		if bo.Op == token.NEQ {
+			match = iff.Block().Succs[1]
+		}
+		if !body[match] && !(match == at || reachableFrom(match, true)[at]) {
+			return "behind the loop that looks for the field in the catalog's list and leaves on a match", true
+		}
+		// the outcome is recorded (a flag, a position) and tested after the loop
+		isOutcome := func(v ssa.Value) bool {
+			phi, ok := v.(*ssa.Phi)
+			if !ok {
+				return false
+			}
+			for i := range phi.Edges {
+				p := phi.Block().Preds[i]
+				if p == match || match.Dominates(p) || p == iff.Block() {
+					return true
+				}
+			}
+			return false
+		}
+		if testedOutside(isOutcome, body) {
+			return "behind a test of what the search loop over the catalog's list found", true
+		}
+		why = "a match in the search loop does not keep the recording from being reached"
+	}
+	// a helper that holds the search
+	found := false
+	allCalls(fn, func(ci ssa.CallInstruction) {
+		g := staticCallee(ci)
+		if g == nil || found {
+			return
+		}
+		g = c.declared(g)
+		if !c.IsLib(g) || g == fn {
+			return
+		}
+		cv, isVal := ci.(ssa.Value)
+		if !isVal {
+			return
+		}
+		for i, a := range ci.Common().Args {
+			if !same(a) || i >= len(g.Params) {
+				continue
+			}
+			gp := g.Params[i]
+			if len(c.fieldSearchTests(g, func(v ssa.Value) bool { return v == ssa.Value(gp) || sameOrigin(v, gp) })) == 0 {
+				continue
+			}
+			isOutcome := func(v ssa.Value) bool { return v == cv }
+			if testedOutside(isOutcome, map[*ssa.BasicBlock]bool{}) {
+				found = true
+			}
+		}
+	})
+	if found {
+		return "behind a test of what a helper that searches the catalog's list answered for the field", true
+	}
+	return why, false
 }
